@@ -43,6 +43,7 @@ theorem bindParams_cons (f : Nat) (t : Tok) (pn : Str) (pty : Ty) (byRef : Bool)
         | .access _ r =>
           let h ← resolveRef f r
           if h.isArr then rtErr t .arrayDirect
+          else if h.ty != pty then rtErr t .invalidArgs
           else
             let c ← locIsConst h.loc
             bindParams f t ps es vs ({ name := pn, ty := h.ty, isConst := c, val := .none, ref := some h.loc } :: acc)
@@ -431,13 +432,17 @@ theorem run_bindParams_byref_nonref (f : Nat) (t : Tok) (pn : Str) (pty : Ty) (p
   | access at' r => exact absurd rfl (he at' r)
   | _ => exact run_rtErr t .byrefArg σ
 
-/-- BYREF, the argument is a reference: it is resolved (in the caller) -/
+/-- BYREF, the argument is a reference: it is resolved (in the caller) — a second evaluation after the one that
+    produced the argument value `v` —; the variable that is actually bound must be of the parameter's type as well
+    (an index expression with a side effect may have selected another variable the second time): otherwise
+    `invalidArgs` -/
 theorem run_bindParams_byref (f : Nat) (t : Tok) (pn : Str) (pty : Ty) (ps : List (Str × Ty × Bool))
     (at' : Tok) (r : Ref) (es : List Expr) (v : Val) (vs : List Val) (acc : List Slot) (σ σ' : St) (h : Holder)
     (hty : v.ty = pty) (hr : (resolveRef f r).run.run σ = (.ok h, σ')) :
     (bindParams (f+1) t ((pn, pty, true) :: ps) (.access at' r :: es) (v :: vs) acc).run.run σ =
       if h.isArr then (.error (.diag (rtDiag σ' t.line t.col .arrayDirect)), σ')
-      else (bindParams f t ps es vs (byrefSlot pn h (locConstP σ' h.loc) :: acc)).run.run σ' := by
+      else if h.ty = pty then (bindParams f t ps es vs (byrefSlot pn h (locConstP σ' h.loc) :: acc)).run.run σ'
+      else (.error (.diag (rtDiag σ' t.line t.col .invalidArgs)), σ') := by
   rw [bindParams_cons]
   have h' : (v.ty != pty) = false := by simp [hty]
   simp only [if_true, h', Bool.false_eq_true, if_false]
@@ -446,8 +451,15 @@ theorem run_bindParams_byref (f : Nat) (t : Tok) (pn : Str) (pty : Ty) (ps : Lis
   | true => simp only [if_true]; exact run_rtErr t .arrayDirect σ'
   | false =>
     simp only [Bool.false_eq_true, if_false]
-    rw [run_bind_ok _ _ _ _ _ (run_locIsConst h.loc σ')]
-    rfl
+    by_cases hh : h.ty = pty
+    · have hh' : (h.ty != pty) = false := by simp [hh]
+      simp only [hh', Bool.false_eq_true, if_false]
+      rw [if_pos hh, run_bind_ok _ _ _ _ _ (run_locIsConst h.loc σ')]
+      rfl
+    · have hh' : (h.ty != pty) = true := by simpa using hh
+      simp only [hh', if_true]
+      rw [if_neg hh]
+      exact run_rtErr t .invalidArgs σ'
 
 /-- BYREF, the reference does not resolve: its diagnostic -/
 theorem run_bindParams_byref_err (f : Nat) (t : Tok) (pn : Str) (pty : Ty) (ps : List (Str × Ty × Bool))
